@@ -73,7 +73,7 @@ fn msgq_try_push_back() {
     std::mem::forget(q);
 }
 
-// @verif id=MSGQ.pop props=C01,C04,C10 tier=quick
+// @verif id=MSGQ.pop props=C01,C04 tier=quick
 // @functions MsgQueue::pop_front, MsgQueue::push_back, MsgQueue::window
 // @bounds queue [payload(2), payload(2), EOF] with symbolic bytes; one pop; then push_back of an error marker
 // @asserts pop returns the OLDEST item byte-identical and reduces len_bytes by its length; the rest keeps its order; push_back appends at the tail
@@ -102,7 +102,7 @@ fn msgq_pop_front_fifo() {
     std::mem::forget(q);
 }
 
-// @verif id=MSGQ.empty props=C01,C10 tier=quick
+// @verif id=MSGQ.empty props=C01 tier=quick
 // @functions MsgQueue::new, MsgQueue::pop_front, MsgQueue::window
 // @bounds the constructor for any capacity: usize; pop on empty
 // @asserts empty queue, window == capacity, pop gives None
